@@ -342,6 +342,12 @@ class Flow:
         return ("list", tuple(self.ev(e) for e in n.elts))
 
     def e_Tuple(self, n):
+        # a namedtuple row that normalize.namedtuple_rows wrote as the tuple of its values keeps its field names (`_nt_fields`): it is
+        # the record built by calling the type -- `.field`, `[k]` and unpacking then read the field's value (simp), also when the row
+        # reaches the reader as the element of a list of such rows
+        fs = getattr(n, "_nt_fields", None)
+        if fs and len(fs) == len(n.elts) and not any(isinstance(e, ast.Starred) for e in n.elts):
+            return ("record", "<namedtuple>", tuple((f, self.ev(e)) for f, e in zip(fs, n.elts)))
         return ("tuple", tuple(self.ev(e) for e in n.elts))
 
     def e_Set(self, n):
